@@ -175,7 +175,7 @@ def analyze_module(src, modname, is_init, modules):
 
     def add(n, k):
         kinds.setdefault(n, set()).add(k)
-        if k in ("def", "async", "class", "assign", "tuple", "ann", "import_own", "self_import"):
+        if k in ("def", "async", "class", "assign", "tuple", "ann", "typealias", "import_own", "self_import"):
             # (a later foreign import / conditional binding does not make the name an export: the mark stays)
             deleted_nested.discard(n)
             deleted_reexport.discard(n)
@@ -208,6 +208,11 @@ def analyze_module(src, modname, is_init, modules):
                     add(n, "ann")
                 if any(n == "__all__" for n, k in out):
                     allst = ["lit", [e.value for e in st.value.elts], True] if _is_str_display(st.value) else ["dyn"]
+        elif hasattr(ast, "TypeAlias") and isinstance(st, ast.TypeAlias):
+            # `type Alias = int` (3.12+): a simple statement, direct child of the module, assigning a top-level name
+            add(st.name.id, "typealias")
+            if st.name.id == "__all__":
+                allst = ["dyn"]
         elif isinstance(st, ast.AugAssign):
             if isinstance(st.target, ast.Name) and st.target.id == "__all__":
                 if allst and allst[0] == "lit" and isinstance(st.op, ast.Add) and _is_str_display(st.value):
@@ -271,7 +276,7 @@ def analyze_module(src, modname, is_init, modules):
                 deleted_nested=sorted(deleted_nested), deleted_reexport=sorted(deleted_reexport))
 
 
-REQUIRED_KINDS = {"def", "async", "class", "assign", "tuple", "ann", "import_own", "own_star"}
+REQUIRED_KINDS = {"def", "async", "class", "assign", "tuple", "ann", "typealias", "import_own", "own_star"}
 D8_KINDS = {"async", "tuple", "ann"}
 
 
@@ -441,6 +446,10 @@ def abstract_items(src):
         elif isinstance(st, ast.AnnAssign):
             items.append({"k": "ann", "target": _abs_target(st.target), "hasValue": st.value is not None,
                           "v": _abs_val(st.value)})
+        elif hasattr(ast, "TypeAlias") and isinstance(st, ast.TypeAlias) and n3_fixed():
+            # N3 repaired: `_member_from_node` treats `type X = v` like `X = v` (one Name target; never a literal
+            # `__all__`: `_is_all_assignment` does not look at TypeAlias, and the generators never alias `__all__`)
+            items.append({"k": "assign", "targets": [_abs_target(st.name)], "v": _abs_val(st.value)})
         elif isinstance(st, ast.AugAssign):
             items.append({"k": "aug", "target": _abs_target(st.target), "v": _abs_val(st.value)})
         elif isinstance(st, ast.ClassDef):
@@ -508,6 +517,26 @@ def model_variant():
     if ov is not None:
         v = {k: k in ov.split(",") for k in ids}
     return v
+
+
+def n3_fixed():
+    """N3 (`type Alias = int` not exported): status of N3 in known_findings/C19.json; `n3` in VERIF_C19_VARIANT overrides"""
+    from vcommon import load_known_findings
+    ov = os.environ.get("VERIF_C19_VARIANT")
+    if ov is not None:
+        return "n3" in ov.split(",")
+    return any(e["id"] == "N3" and e.get("status") == "fixed" for e in load_known_findings("C19"))
+
+
+def n1_fixed():
+    """N1 (exports cached per module NAME although the name is resolved per rewritten file's directory): which
+    behaviour K expects in the env cases with a prior rewrite - from the status of N1 in known_findings/C19.json;
+    `n1` in VERIF_C19_VARIANT overrides (scratch worktree with fixes/C19-N1.diff applied)."""
+    from vcommon import load_known_findings
+    ov = os.environ.get("VERIF_C19_VARIANT")
+    if ov is not None:
+        return "n1" in ov.split(",")
+    return any(e["id"] == "N1" and e.get("status") == "fixed" for e in load_known_findings("C19"))
 
 
 class C19(Prop):
@@ -852,6 +881,9 @@ if cfg["preimport"]:
 from pyflyby._imports2s import replace_star_imports
 from pyflyby._parse import PythonBlock
 from pyflyby._file import Filename
+for first in cfg.get("prior") or []:
+    # another file, in ANOTHER directory, star-importing ITS sibling of the same name, is rewritten first (same process)
+    replace_star_imports(PythonBlock(Filename(first)))
 out = replace_star_imports(PythonBlock(Filename(cfg["tool"])))
 sys.stdout.write(out.text.joined)
 '''
@@ -873,6 +905,11 @@ sys.stdout.write(out.text.joined)
             tool = os.path.join(proj, "tool.py")
             with open(tool, "w", encoding="utf-8") as f:
                 f.write(case["program"])
+            prior = []
+            if e.get("prior"):
+                prior = [os.path.join(lib, "first_c19.py")]
+                with open(prior[0], "w", encoding="utf-8") as f:
+                    f.write(case["priorprogram"])
             path = {"absent_nolib": [], "absent": [lib], "first": [proj, lib], "after": [lib, proj]}[e["path_mode"]]
             repo_lib = os.path.join(REPO, "lib", "python")
             env = {k: v for k, v in os.environ.items() if k not in ("PYTHONPATH", "PYTHONSTARTUP", "PYTHONHOME")}
@@ -895,14 +932,14 @@ sys.stdout.write(out.text.joined)
             # the rewrite, in that environment
             if e["via"] == "cli":
                 cenv = dict(env, PYTHONPATH=os.pathsep.join([repo_lib] + path))
-                p = subprocess.run([sys.executable, os.path.join(REPO, "bin", "replace-star-imports"), "--replace", tool],
+                p = subprocess.run([sys.executable, os.path.join(REPO, "bin", "replace-star-imports"), "--replace"] + prior + [tool],
                                    env=cenv, cwd=base, stdout=subprocess.PIPE, stderr=subprocess.PIPE, text=True, timeout=120)
                 obs["rewrite_rc"] = p.returncode
                 obs["new"] = open(tool, encoding="utf-8").read() if p.returncode == 0 else None
                 obs["rewrite_err"] = p.stderr[-300:] if p.returncode else None
             else:
                 cfg = dict(path=path, repo_lib=repo_lib, preimport=e["preimport"], modname=case["modname"],
-                           proj=proj, tool=tool)
+                           proj=proj, tool=tool, prior=prior)
                 p = subprocess.run([sys.executable, "-I", "-c", self.ENV_DRIVER, json.dumps(cfg)], env=env, cwd=base,
                                    stdout=subprocess.PIPE, stderr=subprocess.PIPE, text=True, timeout=120)
                 obs["rewrite_rc"] = p.returncode
@@ -952,13 +989,31 @@ sys.stdout.write(out.text.joined)
             return []
         mods = [case["modname"]] + [r[:-3].replace("/", ".") for r in case["projfiles"]
                                     if r.endswith(".py") and not r.endswith("__init__.py") and r != rel]
-        return [dict(op="exports", variant=model_variant(), self=[case["modname"]], isInit=is_init,
+        reqs = [dict(op="exports", variant=model_variant(), self=[case["modname"]], isInit=is_init,
                      exists=[m.split(".") for m in mods], items=items)]
+        if case["env"].get("prior"):
+            # second request: the exports of the OTHER directory's module of that name (what the per-name handle
+            # cache answers while N1 is not repaired)
+            lrel, linit = case["modname"] + ".py", False
+            if lrel not in case["libfiles"]:
+                lrel, linit = case["modname"] + "/__init__.py", True
+            try:
+                litems = abstract_items(case["libfiles"][lrel])
+            except SyntaxError:
+                return reqs
+            reqs.append(dict(op="exports", variant=model_variant(), self=[case["modname"]], isInit=linit,
+                             exists=[[case["modname"]]], items=litems))
+        return reqs
 
     def _env_compare(self, case, obs, resps):
         if obs.get("new") is None or "ok" not in resps[0]:
             return None
         want = sorted(set(resps[0]["ok"]))
+        if case["env"].get("prior") and not n1_fixed():
+            # the code as it is: the handle of that NAME was filled in while the other directory's file was rewritten
+            if len(resps) < 2 or "ok" not in resps[1]:
+                return None
+            want = sorted(set(resps[1]["ok"]))
         try:
             imps = top_imports(obs["new"])
         except SyntaxError:
@@ -1321,7 +1376,7 @@ sys.stdout.write(out.text.joined)
     def sample_repr(self, case, obs):
         if case.get("kind") == "env":
             return dict(env=case["env"], proj=case["projfiles"], lib=case["libfiles"], program=case["program"],
-                        new=obs.get("new"))
+                        prior=case.get("priorprogram"), new=obs.get("new"))
         t = case["targets"][0]
         rel, _ = target_file(case, t)
         return dict(target=t, source=(case["files"].get(rel) if rel else None), program=case["program"],
@@ -1334,6 +1389,8 @@ sys.stdout.write(out.text.joined)
         if case.get("kind") == "env":
             e = case["env"]
             inc("env_%s_%s_%s" % (e["via"], e["path_mode"], "preimported" if e["preimport"] else "fresh"))
+            if e.get("prior"):
+                inc("env_prior_other_dir_%s" % e["via"])
             return
         for t, v in obs["exports"].items():
             inc("exports_err" if isinstance(v, dict) else "exports_none" if v is None else "exports_nonempty")
@@ -1463,7 +1520,44 @@ def fam_deletes_own_reexport(case, f):
     return f.get("what") in DEL_FAILS and bool(f.get("deleted_reexport"))
 
 
-C19.families = {"del_nested": fam_del_nested, "deletes_own_reexport": fam_deletes_own_reexport,
+def fam_type_alias_stmt(case, f):
+    """N3: a public name bound at top level ONLY by a `type X = ...` statement is not exported."""
+    w = f.get("what")
+    if w == "export-missing":
+        return _req(f.get("kinds")) == {"typealias"}
+    if w in PROGRAM_FAILS:
+        for t, d in f.get("why", {}).get("targets", {}).items():
+            if (not d.get("exported") and d.get("exports_state") == "list" and d.get("all") != "lit"
+                    and _req(d.get("kinds")) == {"typealias"}):
+                return True
+    return False
+
+
+def fam_stale_handle_other_dir(case, f):
+    """N1: a file star-importing its sibling module is rewritten after a file in ANOTHER directory that star-imports
+    its own sibling of the same name (same process / one `replace-star-imports a/x.py b/y.py`): the per-name
+    ModuleHandle answers with the other directory's exports.  Only env cases with a prior rewrite, and only when the
+    explicit list is made of names the OTHER directory's module binds at top level."""
+    if case.get("kind") != "env" or not case["env"].get("prior") or not str(f.get("what", "")).startswith("env: "):
+        return False
+    if f.get("what") == "env: rewrite failed" or f.get("new") is None:
+        return False
+    mod = case["modname"]
+    try:
+        listed = {n for (m, n, a) in top_imports(f["new"]) if m == mod and n != "*"}
+        lsrc = case["libfiles"].get(mod + ".py", case["libfiles"].get(mod + "/__init__.py"))
+        bound = set()
+        for node in ast.parse(lsrc).body:
+            if isinstance(node, (ast.FunctionDef, ast.ClassDef)):
+                bound.add(node.name)
+            elif isinstance(node, ast.Assign):
+                bound.update(t.id for t in node.targets if isinstance(t, ast.Name))
+    except (SyntaxError, TypeError):
+        return False
+    return bool(listed) and listed <= bound
+
+
+C19.families = {"stale_handle_other_dir": fam_stale_handle_other_dir, "type_alias_stmt": fam_type_alias_stmt, "del_nested": fam_del_nested, "deletes_own_reexport": fam_deletes_own_reexport,
                 "d8_forms": fam_d8_forms, "not_exported_by_design": fam_not_exported_by_design,
                 "own_star": fam_own_star, "reorder_kept_star": fam_reorder_kept_star, "alias_probe": fam_alias_probe}
 
